@@ -53,7 +53,7 @@ var icmpNames = map[string]string{"echo": "8", "echo-reply": "0", "unreachable":
 	"router-advertisement": "9", "router-solicitation": "10", "alternate-address": "6",
 	"conversion-error": "31", "mobile-redirect": "32", "traceroute": "30",
 	"packet-too-big": "3 4", "port-unreachable": "3 3", "host-unreachable": "3 1",
-	"net-unreachable": "3 0", "ttl-exceeded": "11 0", "administratively-prohibited": "3 13"}
+	"net-unreachable": "3 0", "ttl-exceeded": "11 0", "reassembly-timeout": "11 1", "administratively-prohibited": "3 13"}
 
 // ACE is a parsed extended ACL entry (the part after the ACL name / the IOS
 // sub-command).  Parts that are not understood stay in Rest.
